@@ -607,3 +607,142 @@ Example demo_batch_remove :
   snd (fst r) = Ok (VNat 3) /\ w_pool (res_world r) = w_pool ws /\ w_index (res_world r) = w_index ws /\
   w_tables (res_world r) = w_tables ws /\ table_ents demo_br_world (get_tables demo_br_world (FMask 1 2)) = [mkE 1 0; mkE 2 0; mkE 6 0].
 Proof. vm_compute. done. Qed.
+
+(** ** The events of Batch.RemoveEntities: one removal event per matching entity, in
+    processing order, each the event of the single removal (all-subscribing listener) *)
+From Arche Require Import Proofs.Subs Proofs.EventsExact.
+
+Definition rm_ev (w : world) (e : Entity) : list event :=
+  match ent_mask w e, ent_rel w e, ent_target w e with
+  | Some m, Some r, Some tg =>
+      [mkEv e 0 m [] (mask_ids (w_tb w) m) r None tg
+            (subscription false true false (negb (bool_decide (mask_ids (w_tb w) m = []))) (bool_decide (is_Some r)) (bool_decide (is_Some r))) true 0]
+  | _, _, _ => []
+  end.
+
+Lemma ev_remove_listener w w' e nd tg : w_listener w' = w_listener w -> ev_remove w' e nd tg = ev_remove w e nd tg.
+Proof. intros H. unfold ev_remove. by rewrite H. Qed.
+
+Lemma clean_for_listener w e : w_listener (clean_for w e) = w_listener w.
+Proof.
+  unfold clean_for. destruct (tbit w (eid e)); [|done]. simpl. apply (fr_listener _ _ (frame_cleanup_tables_for w e)).
+Qed.
+
+Lemma rm_loop_events nd tg es : forall w evs,
+  snd (foldl (rm_step nd tg) (w, evs) es) = evs ++ flat_map (fun e => ev_remove w e nd tg) es /\
+  w_listener (fst (foldl (rm_step nd tg) (w, evs) es)) = w_listener w.
+Proof.
+  induction es as [|e r IH]; intros w evs; [simpl; by rewrite app_nil_r|].
+  change (foldl (rm_step nd tg) (w, evs) (e :: r)) with (foldl (rm_step nd tg) (rm_step nd tg (w, evs) e) r).
+  rewrite rm_step_eq. set (w1 := with_ip _ _ _).
+  assert (Hl : w_listener w1 = w_listener w) by (unfold w1; apply clean_for_listener).
+  destruct (IH w1 (evs ++ ev_remove w e nd tg)) as [H1 H2]. rewrite H1, H2. split; [|done].
+  cbn [flat_map]. rewrite <- app_assoc. f_equal. f_equal.
+  apply flat_map_ext. intros e0. by apply ev_remove_listener.
+Qed.
+
+Lemma remove_table_events w tid t nd :
+  w_tables w !! tid = Some t -> w_nodes w !! t_node t = Some nd ->
+  snd (remove_table_entities w tid) = flat_map (fun e => ev_remove w e nd (t_target t)) (t_ents t).
+Proof.
+  intros Ht Hnd. unfold remove_table_entities. rewrite Ht, Hnd.
+  change (foldl _ (w, []) (t_ents t)) with (foldl (rm_step nd (t_target t)) (w, []) (t_ents t)).
+  destruct (rm_loop_events nd (t_target t) (t_ents t) w []) as [H1 _].
+  destruct (foldl (rm_step nd (t_target t)) (w, []) (t_ents t)) as [w1 evs]. simpl in *. done.
+Qed.
+
+Lemma ev_remove_exact w live e tid t nd row :
+  world_okr w live -> w_listener w = Some lall -> w_tables w !! tid = Some t -> w_nodes w !! t_node t = Some nd ->
+  t_ents t !! row = Some e -> ev_remove w e nd (t_target t) = rm_ev w e.
+Proof.
+  intros [S G] Hlis Ht Hnd Hrow. destruct (so_rows _ _ S tid t row e Ht Hrow) as [Hlive Hloc].
+  destruct (views_of_row w live e tid row t nd S Hlive Hloc Ht Hnd) as (V1 & V2 & V3).
+  unfold rm_ev. rewrite V1, V2, V3. unfold ev_remove. rewrite Hlis, (rg_ids _ G _ _ Hnd).
+  set (bits := subscription false true false (negb (bool_decide (mask_ids (w_tb w) (n_mask nd) = []))) (node_has_rel nd) (node_has_rel nd)).
+  rewrite recipients_all by apply subscription_lt.
+  assert (Hnz : (bits =? 0)%N = false) by (unfold bits; by destruct (negb _), (node_has_rel nd)).
+  rewrite Hnz. done.
+Qed.
+
+Lemma flat_map_ext_mem' {X Y} (f g : X -> list Y) l : (forall x, x ∈ l -> f x = g x) -> flat_map f l = flat_map g l.
+Proof.
+  induction l as [|x r IH]; intros H; [done|]. simpl. rewrite (H x (elem_of_list_here _ _)), IH; [done|].
+  intros y Hy. apply H. by apply elem_of_list_further.
+Qed.
+
+Lemma rm_loop_events_ok issued tids : forall w live evs0,
+  NoDup tids -> world_okr2 w live issued -> cache_ok w -> w_listener w = Some lall ->
+  (forall e, e ∈ table_ents w tids -> (egen e < gen_max)%N) ->
+  snd (foldl rm_tables_step (w, evs0) tids) = evs0 ++ flat_map (rm_ev w) (table_ents w tids).
+Proof.
+  induction tids as [|tid r IH]; intros w live evs0 Hnd K C Hlis Hgen; [simpl; by rewrite app_nil_r|].
+  apply NoDup_cons in Hnd as [Hnotin Hnd]. cbn [foldl].
+  destruct (table_skip w tid) eqn:Hskip.
+  - assert (Hstep : rm_tables_step (w, evs0) tid = (w, evs0)) by (unfold rm_tables_step; by rewrite Hskip).
+    rewrite Hstep. apply table_skip_ents in Hskip.
+    assert (Heq : table_ents w (tid :: r) = table_ents w r) by (unfold table_ents; simpl; by rewrite Hskip).
+    rewrite Heq in *. by apply (IH w live).
+  - assert (Hne : tbl_ents w tid <> []) by (intros H; apply table_skip_ents in H; congruence).
+    destruct (w_tables w !! tid) as [t|] eqn:Ht; [|unfold tbl_ents in Hne; by rewrite Ht in Hne].
+    assert (Htb : tbl_ents w tid = t_ents t) by (unfold tbl_ents; by rewrite Ht). rewrite Htb in Hne.
+    pose proof K as [[S G] _ _]. destruct (so_table _ _ S tid t Ht) as (nd & Hndd & _).
+    destruct (remove_table_entities_ok w live issued tid t K C Ht Hne) as (K1 & C1 & N1 & A1 & A2 & A3 & A4 & A5 & A6).
+    { intros e He. apply Hgen. unfold table_ents. simpl. apply elem_of_app. left. by rewrite Htb. }
+    pose proof (remove_table_entities_shrink w tid) as [Hsh Hshl].
+    pose proof (remove_table_events w tid t nd Ht Hndd) as Hev.
+    assert (Hstep : rm_tables_step (w, evs0) tid = ((remove_table_entities w tid).1, evs0 ++ (remove_table_entities w tid).2)).
+    { unfold rm_tables_step. rewrite Hskip. by destruct (remove_table_entities w tid). }
+    rewrite Hstep. destruct (remove_table_entities w tid) as [w1 ev]. cbn [fst snd] in *.
+    assert (Hrest : forall tid', tid' ∈ r -> tbl_ents w1 tid' = tbl_ents w tid').
+    { intros tid' Hin. assert (tid' <> tid) by (intros ->; done). unfold tbl_ents.
+      destruct (w_tables w !! tid') as [t'|] eqn:Ht'.
+      - destruct (t_ents t') as [|x l] eqn:Hee.
+        + destruct (Hsh tid' t' Ht') as (t'' & -> & [Hc|Hc]); congruence.
+        + rewrite (A6 tid' t' H Ht'); [done|]. by rewrite Hee.
+      - destruct (w_tables w1 !! tid') as [t1|] eqn:Ht1; [|done].
+        apply lookup_ge_None in Ht'. apply lookup_lt_Some in Ht1. lia. }
+    assert (Hte : table_ents w1 r = table_ents w r).
+    { unfold table_ents. clear -Hrest. induction r as [|x l IHl]; [done|]. simpl.
+      rewrite (Hrest x (elem_of_list_here _ _)), IHl; [done|]. intros y Hy. apply Hrest. by apply elem_of_list_further. }
+    rewrite (IH w1 (filter (fun x => x ∉ t_ents t) live) (evs0 ++ ev) Hnd K1 C1).
+    + rewrite Hte. assert (Heq : table_ents w (tid :: r) = t_ents t ++ table_ents w r) by (unfold table_ents; simpl; by rewrite Htb).
+      rewrite Heq, flat_map_app, <- app_assoc. f_equal. f_equal.
+      * rewrite Hev. apply flat_map_ext_mem'. intros e He. apply elem_of_list_lookup in He as [row Hrow].
+        by apply (ev_remove_exact w live e tid t nd row (r2_ok _ _ _ K) Hlis Ht Hndd Hrow).
+      * (* the remaining entities look the same in w1 *)
+        apply flat_map_ext_mem'. intros e He. unfold rm_ev.
+        assert (Hlive' : e ∈ filter (fun x => x ∉ t_ents t) live).
+        { unfold table_ents in He. apply elem_of_list_In, in_flat_map in He as (tid' & Hin' & Hmem). apply elem_of_list_In in Hin', Hmem.
+          assert (tid' <> tid) by (intros ->; done). unfold tbl_ents in Hmem.
+          destruct (w_tables w !! tid') as [t'|] eqn:Ht'; [|by apply elem_of_nil in Hmem].
+          apply elem_of_list_lookup in Hmem as [row Hrow]. destruct (so_rows _ _ S tid' t' row e Ht' Hrow) as [Hl Hloc].
+          apply elem_of_list_filter. split; [|done]. intros Hm. apply elem_of_list_lookup in Hm as [i Hi].
+          destruct (so_rows _ _ S tid t i e Ht Hi) as [_ Hloc2]. rewrite Hloc in Hloc2. injection Hloc2 as -> _. done. }
+        assert (Hl0 : e ∈ live) by (by apply elem_of_list_filter in Hlive' as [_ ?]).
+        destruct (views_same w w1 live e S Hl0 N1 (A5 e Hlive')) as (X1 & X2 & X3 & _).
+        by rewrite X1, X2, X3, A2.
+    + congruence.
+    + intros e He. rewrite Hte in He. apply Hgen. unfold table_ents in *. simpl. apply elem_of_app. by right.
+Qed.
+
+Theorem batch_remove_events_exact w A f w' n evs :
+  R w A -> cache_ok w -> w_listener w = Some lall ->
+  (forall e, e ∈ table_ents w (get_tables w f) -> (egen e < gen_max)%N) ->
+  op_remove_entities w (FPlain f) = (w', Ok (VNat n), evs) ->
+  evs = flat_map (rm_ev w) (table_ents w (get_tables w f)).
+Proof.
+  intros HR C Hlis Hgen H. pose proof HR as [K Hr Hu He].
+  unfold op_remove_entities in H. rewrite Hu in H. cbn [arg_tables] in H.
+  destruct (locks_lock (w_tb w) (w_locks w)) as [[l b]|] eqn:Hlk; [|done].
+  set (wl := w <| w_locks := l |>) in *.
+  assert (Kl : world_okr2 wl (as_live A) (as_issued A)).
+  { destruct K as [[S G] P Li]. split; [split|done|done].
+    - destruct S as [A1 A2 A3 A4]. by split.
+    - eapply (rgraph_ok_same_nodes w); try done; intros tid t Ht; exists t; repeat split; try done; intros; congruence. }
+  change (foldl _ (wl, []) (get_tables w f)) with (foldl rm_tables_step (wl, []) (get_tables w f)) in H.
+  assert (Hndt : NoDup (get_tables w f)).
+  { rewrite get_tables_contrib. by apply (selected_nodup w (as_live A)), K. }
+  pose proof (rm_loop_events_ok (as_issued A) (get_tables w f) wl (as_live A) [] Hndt Kl C Hlis Hgen) as Hev.
+  destruct (foldl rm_tables_step (wl, []) (get_tables w f)) as [w1 evs1]. cbn [snd] in Hev.
+  injection H as _ _ <-. rewrite Hev. done.
+Qed.
